@@ -260,3 +260,8 @@ def r15_6(prog, rep):
             it["rule"] = "R15.6"
             rep.items.append(it)
             rep.counts["R15.6"] = rep.counts.get("R15.6", 0) + 1
+
+
+from ..core import guard_rules  # noqa: E402
+
+guard_rules(globals())
